@@ -6,7 +6,7 @@ use vcore::drive::{prop_par, Verdict};
 use vcore::rt::{self, digest_str, esc, Acc, Args, Report};
 use vcore::sgr;
 
-const RULE: &str = "Inputs (the domain stated in the property): texts made of segments, each introduced by one self-contained SGR sequence CSI 0;<codes> m with any subset of 1,2,3,4,5,7,8,9 (never 1 and 2 together), at most one of 30-37/90-97 and one of 40-47/100-107, codes in generated order; segment text over letters, space, '.', apostrophe, backslash, hyphen, double quote, newline (incl. leading '.' and apostrophe after a newline) and multi-byte characters; optional unstyled text first. Exhaustively all 17x17 colour pairs x 192 effect subsets for a single segment; random lists of 1..6 segments. Oracle: a roff reader (only .gcolor/.fcolor/.defcolor requests allowed, exactly one colour pair before each text block, escapes \\\\ \\- \\& \\fB \\fI \\fR and in render() \\*(Aq undone) must give back, per segment, the colours ('default' when unset, bright = same name), the font (bold if bold or bright foreground, else italic if italic, else roman) and the text. Non-trivial = at least 2 segments or a text with a character that needs escaping (distinct by input).";
+const RULE: &str = "Inputs (the domain stated in the property): texts made of segments, each introduced by one self-contained SGR sequence CSI 0;<codes> m with any subset of 1,2,3,4,5,7,8,9 (never 1 and 2 together), at most one of 30-37/90-97 and one of 40-47/100-107, codes in generated order; segment text over letters, space, '.', apostrophe, backslash, hyphen, double quote, newline (incl. leading '.' and apostrophe after a newline) and multi-byte characters; optional unstyled text first. Exhaustively all 17x17 colour pairs x 192 effect subsets for a single segment; random lists of 1..6 segments. Oracle: a roff reader (only .gcolor/.fcolor/.defcolor requests allowed, exactly one colour pair before each text block, escapes \\\\ \\- \\& \\fB \\fI \\fR and in render() \\*(Aq undone) must give back, per segment, the colours ('default' when unset, bright = same name), the font (bold if bold or bright foreground, else italic if italic, else roman) and the text. Ambient environment: a small exhaustive family re-run under an environment that says no-colour in every convention and one that forces colour (the document depends on the text alone). Non-trivial = at least 2 segments or a text with a character that needs escaping (distinct by input).";
 
 const NAMES: [&str; 8] = ["black", "red", "green", "yellow", "blue", "magenta", "cyan", "white"];
 
@@ -397,6 +397,36 @@ fn run(args: &Args, rep: &mut Report) {
         acc
     });
     rep.add("single-segment", true, "17 x 17 colour pairs x 192 effect subsets (bold+dim excluded), one segment", accs);
+    // the document is a function of the styled text alone: the same under an environment that says
+    // "no colour" in every convention and under one that forces colour (single-threaded: the
+    // environment is process-wide)
+    {
+        let mut acc = Acc::new();
+        'env: for (name, vars) in rt::HOSTILE_ENVS {
+            for fg in 0..17u8 {
+                for bg in 0..17u8 {
+                    for effects in [0, sgr::BOLD, sgr::ITALIC, sgr::BOLD | sgr::ITALIC | sgr::UNDERLINE] {
+                        let segs = vec![
+                            Seg { fg: (fg < 16).then_some(fg), bg: (bg < 16).then_some(bg), effects, text: "x-.y".to_owned(), order: fg as u32 * 17 + bg as u32, styled: true },
+                            Seg { fg: (bg < 16).then_some(bg), bg: None, effects: 0, text: "'z\\".to_owned(), order: 3, styled: true },
+                        ];
+                        acc.eval();
+                        match rt::with_env(vars, || rt::guarded(|| check(&segs))) {
+                            Ok(_) => {
+                                acc.nontrivial_distinct();
+                                acc.sample(|| json!({"environment": name, "input": esc(render_input(&segs).as_bytes())}));
+                            }
+                            Err(m) => {
+                                acc.fail("ambient-environment", json!({"environment": name, "segments": segs}), format!("under the environment '{name}' {vars:?}: {m}"));
+                                break 'env;
+                            }
+                        }
+                    }
+                }
+            }
+        }
+        rep.add("ambient-environment", true, "2 environments (every no-colour convention / every force-colour convention) x 17 x 17 colour pairs x 4 effect sets, two segments", vec![acc]);
+    }
     rep.add(
         "segment-lists",
         false,
@@ -454,6 +484,12 @@ fn replay(sub: &str, case: &Value) -> Result<(), String> {
             return Err(format!("to_roff({}) reads back as {:?}, expected {:?}", esc(input.as_bytes()), got, want));
         }
         return Ok(());
+    }
+    if sub == "ambient-environment" {
+        let segs: Vec<Seg> = serde_json::from_value(case["segments"].clone()).map_err(|e| format!("bad case: {e}"))?;
+        let name = case["environment"].as_str().unwrap_or("");
+        let vars = rt::HOSTILE_ENVS.iter().find(|(n, _)| *n == name).map(|(_, v)| *v).ok_or("unknown environment")?;
+        return rt::with_env(vars, || check(&segs)).map(|_| ());
     }
     let segs: Vec<Seg> = serde_json::from_value(case.clone()).map_err(|e| format!("bad case: {e}"))?;
     check(&segs).map(|_| ())
